@@ -33,6 +33,8 @@ def center_of_mass(img, labels=None):
         return value is a 2-ndarray of coordinates (``shape = (labels.max()+1,
         len(img.shape)``).  '''
     if labels is not None:
+        if labels.shape != img.shape:
+            raise ValueError('mahotas.center_of_mass: `labels` must have the same shape as `img`')
         if labels.dtype != np.int32 or \
             not labels.flags['C_CONTIGUOUS']:
             labels = np.ascontiguousarray(labels, np.int32)
